@@ -332,6 +332,9 @@ fn runtime_scripts() -> Vec<(&'static str, Vec<(usize, Step)>, Ext)> {
         ("v-link-set-sync-set", s(vec![link("v"), cmd("v", "5"), sync("v"), cmd("v", "6"), go()]), Ext { v: true, ..Default::default() }),
         ("v-sync-go-sync-go", s(vec![sync("v"), go(), sync("v"), go()]), Ext::default()),
         ("m-link-upd-sync-rem", s(vec![link("m"), cmd("m", "@update(key:1) 7"), sync("m"), cmd("m", "@remove(key:1)"), go()]), Ext { upd: true, rem: true, ..Default::default() }),
+        // take / drop addressed to the map lane: the entries go one by one, on_remove for each
+        ("m-upd-upd-drop-all", s(vec![link("m"), cmd("m", "@update(key:1) 7"), cmd("m", "@update(key:2) 8"), cmd("m", "@drop(2)"), go()]), Ext { upd: true, rem: true, ..Default::default() }),
+        ("m-upd-upd-upd-take1", s(vec![cmd("m", "@update(key:3) 7"), cmd("m", "@update(key:1) 8"), cmd("m", "@update(key:2) 9"), sync("m"), cmd("m", "@take(1)"), go()]), Ext { upd: true, rem: true, ..Default::default() }),
         (
             "w-m-mixed",
             s(vec![link("w"), sync("m"), cmd("w", "3"), sync("w"), cmd("m", "@update(key:2) 8"), go(), cmd("w", "4"), sync("w"), cmd("m", "@clear")]),
